@@ -144,6 +144,16 @@ def handle (args : List String) : Option String :=
       some (match quantileColumn D (← parseXR? q) with
             | none => "ERR"
             | some c => ";".intercalate ((getScores [c]).map showVec))
+  -- single ensemble members requested one after the other from the same dataset: member m is column m of the
+  -- ensemble, over the cases where it is present ([nan] when there is none)
+  | "ensseq" :: D :: ms => do
+      let D ← parseDataset? D
+      let ens ← D.ens
+      let outs ← ms.mapM fun m => do
+        let k ← m.toNat?
+        let col := (ens.map fun row => row.getD k .nan).filter fun v => !v.isNan && !v.isInf
+        some (showVec (if col.isEmpty then [XR.nan] else col))
+      some (";".intercalate outs)
   | ["ensthr", t, ms] => do
       some (toString (ensProb (← parseXR? t) (← parseVec? ms)))
   | ["ensq", q, ms] => do
